@@ -29,7 +29,8 @@ PROPS["C01"] = dict(
     instrument=ENGINE_FILES,  # one instrumented build serves every check; with no active run the seams are pass-through
     budget=dict(quick=25, thorough=600),
     rule="seeded histories of 4-90 store operations (NewGraph/Graph/DeleteGraph/GraphNames, AddTriples/RemoveTriples batches with duplicates, overlaps, "
-         "empty batches, stale handles of dropped graphs) over 1-3 graphs and a universe of 8-20 triples; after EVERY operation the complete observable state "
+         "empty batches, stale handles of dropped graphs) over 1-3 graphs and a universe of 8-20 triples (plain values; in "rich" cases also one instant in two zones, int64 extremes and neighbours beyond 2^53, "
+         "floats closer than 1e-6, +Inf, empty identifiers and texts, and anchors at boundary instants: Go's zero time, the Unix epoch, the nanosecond before it, the end of year 9999); after EVERY operation the complete observable state "
          "(call outcome, GraphNames, full listing as a multiset of structural keys, Exist of every universe triple, every other graph) is compared with a "
          "reference map name->set. A case is non-trivial when at least one non-empty batch was applied and observed afterwards; distinct = distinct "
          "(operation kind, graph, resulting set size) sequences",
@@ -79,12 +80,15 @@ PROPS["C19"] = dict(
          "through 1-3 handles of one graph obtained from memoization.New(memory.NewStore()); every read is repeated on the wrapped store and must deliver "
          "the same sequence. (b) concurrent: one writer (1-3 AddTriples/RemoveTriples batches) and one or two readers (2-4 repeated reads each, through the "
          "writer's handle or their own) under the seeded scheduler with yield points before every statement of the instrumented memoization and memory "
-         "copies; a read must answer like the wrapped store in one of the states it may observe (real-time bounds from the event sequence). "
-         "Non-trivial: (a) a read after a write, (b) a read overlapping a write with at least one scheduling decision; distinct = distinct histories x pick sequences",
+         "copies; a read must answer like the wrapped store in one of the states it may observe (real-time bounds from the event sequence); a third of these runs are "hot spot" runs: every reader "
+         "repeats one read about a triple the writer adds or removes, through the writer's handle. (c) faulty wrapped driver (30% of the sequential cases): a simulated driver sits between the "
+         "memoizer and the memory store and fails the next call of chosen operations (write refused; lookup fails before the first element or after j elements; Exist fails): the wrapper must "
+         "report the failure, may have delivered only a prefix of the answer, and every later read must again equal the wrapped store. "
+         "Non-trivial: (a) a read after a write, (b) a read overlapping a write with at least one scheduling decision, (c) a read after a fired fault; distinct = distinct histories x pick sequences",
     components_real=["storage/memoization (real code, instrumented scratch copy)", "storage/memory (real code, instrumented scratch copy)"],
     components_stub=["clients and drainers (harness tasks)", "seeded scheduler in a synctest bubble (x/sim)"],
     assumptions=["a RemoveTriples batch may become visible triple by triple (C07 allows it); its intermediate states count as observable",
-                 "context cancellation inside the memoizer's select statements is not exercised (Go's select picks among ready cases with an unowned random source)"],
+                 "context cancellation inside the memoizer is exercised by C08 / C20 (caller-cancel fault under the memoized configuration), not here"],
 )
 
 ENGINE_REAL = ["bql/lexer, bql/grammar (parser, LLk), bql/semantic (hooks, statement) - real code",
@@ -100,8 +104,10 @@ PROPS["C20"] = dict(
     rule="seeded corpus of statements (SELECT with 1-3 clauses of every driver lookup shape incl. OPTIONAL, GROUP BY / ORDER BY / LIMIT / global bounds; INSERT; DELETE; "
          "CREATE; DROP; CONSTRUCT / DECONSTRUCT with and without ';' reification; SHOW) over 1-3 graphs; per statement one fault-free run under tape T records the driver "
          "call trace c1..cn, then ONE RUN PER (call position, mode) under the same tape with that single fault: non-streaming calls fail; streaming calls fail before the "
-         "first element and after j delivered elements (j in {1, 2, n/2, n-1, n}); plus sampled double faults. The prefix of the call trace up to the fault must equal the "
-         "fault-free one (checked). Oracle per run: Execute returns a non-nil error, never (nil, nil); it returns (no deadlock, no step cap); no goroutine of the call is left "
+         "first element and after j delivered elements (j in {1, 2, n/2, n-1, n}); the caller's context is cancelled when the call starts and after j elements (j in {1, n}); plus sampled double faults. "
+         "The simulated driver is context-ignoring (like storage/memory) or context-aware (returns ctx.Err() once the context is done: cancellation by the caller or by the engine's own errgroup "
+         "then turns into further driver errors), a per-case knob. The prefix of the call trace up to the fault must equal the "
+         "fault-free one (checked). Oracle per run: whenever a driver call returned an error to the engine Execute returns a non-nil error; never (nil, nil); it returns (no deadlock, no step cap); no goroutine of the call is left "
          "(bubble stack dump); no panic. evaluations = simulated executions (fault-free + faulty); a case is non-trivial when at least one injected fault actually fired; "
          "distinct = distinct (statement, data, knobs)",
     exhaustive_note="exhaustive only over (call position x mode) of each sampled statement, with j capped to five values per call in the quick tier, every j <= delivered in the thorough tier",
@@ -109,7 +115,7 @@ PROPS["C20"] = dict(
     components_stub=["simulated storage driver (x/harness/simstore.go): gate + pacing + emission permutation + fault plan over the real memory store", "seeded scheduler in a synctest bubble"],
     assumptions=["the simulated driver honours the storage.Graph contract (closes the channel before returning, also on error)",
                  "nothing is demanded about partial writes after a failed write",
-                 "context cancellation by the caller is not injected"],
+                 "caller-side cancellation is injected at driver-call granularity (start of a call, between two elements), not at arbitrary engine statements"],
 )
 
 PROPS["C08"] = dict(
@@ -122,7 +128,8 @@ PROPS["C08"] = dict(
          "exported grammar.BQL() table with sampled token texts, (c) random byte strings - half of them damaged the way an aborted or mangled request is "
          "(truncation after a token, token deletion / duplication / swap / replacement, delimiter injected inside a token, token cut, early error followed by a "
          "long tail, trailing tokens after the final ';'); executed through server.BQL as the client of a simulated run over empty and populated stores, plain or "
-         "memoized, with drawn chanSize / bulkSize / processor count / pacing / emission order. Oracle: exactly one of (table, error); no panic in the caller or in "
+         "memoized, with drawn chanSize / bulkSize / processor count / pacing / emission order / context-aware or context-ignoring driver; in 15% of the runs the caller's context is cancelled during a "
+         "drawn driver call. Oracle: exactly one of (table, error); no panic in the caller or in "
          "any engine goroutine; the call returns (no deadlock / step cap); no goroutine of the call is left (bubble stack dump, lexer included). "
          "Every execution counts as non-trivial (a table or an intended rejection); distinct = distinct (text, data)",
     components_real=ENGINE_REAL,
@@ -148,7 +155,7 @@ _QUERY_COMMON = dict(
 PROPS["C03"] = dict(_QUERY_COMMON,
     rule="graph contents over the vocabulary (immutable and temporal predicates sharing identifiers, all literal kinds, predicate-valued objects, one instant in two zones) partitioned over 1-3 "
          "disjoint graphs; SELECTs of the conjunctive fragment: 1-4 clauses, constants or bindings in every position, repeated bindings within and across clauses and across kinds, "
-         "anchor bindings, clause bounds, global BEFORE/AFTER/BETWEEN, AS/ID/TYPE/AT extractions, 1-3 FROM graphs; executed through server.BQL inside the simulator under a drawn "
+         "anchor bindings, clause bounds, global BEFORE/AFTER/BETWEEN, AS/ID/TYPE/AT extractions, projection aliases (also ones that re-use the name of a pattern binding), empty identifiers and texts, 1-3 FROM graphs; executed through server.BQL inside the simulator under a drawn "
          "schedule / pacing / emission order / chanSize / processor count / memoization; result compared as a multiset of canonical rows with the reference evaluator (as sets of distinct "
          "rows when a clause has an un-named anchor range). Non-trivial: non-empty reference result; distinct = distinct (query text, data)")
 PROPS["C10"] = dict(_QUERY_COMMON,
@@ -161,7 +168,7 @@ PROPS["C11"] = dict(_QUERY_COMMON,
 
 PROPS["C12"] = dict(_QUERY_COMMON,
     components_stub=["simulated storage driver, fault-free (gate, pacing, permuted emission: the LIMIT push-down into the driver crosses this seam)", "seeded scheduler in a synctest bubble"],
-    rule="numeric- and anchor-heavy data (negative / fractional / extreme numbers, anchors of several precisions, text, nodes) and base queries of 1-2 clauses, optionally grouped; "
+    rule="numeric- and anchor-heavy data (negative / fractional / extreme numbers, neighbouring integers beyond 2^53, floats closer than 1e-6, anchors of several precisions, text, nodes) and base queries of 1-2 clauses, optionally grouped; "
          "for each base query Q the variants Q, Q+ORDER BY keys (1-2 keys, ASC/DESC, repeated keys, aliases, aggregate outputs), Q+ORDER BY+LIMIT n and Q+LIMIT n for n in {0,1,2,3,5,50} "
          "and Q with four invalid limits, each variant under its own drawn schedule / driver behaviour / knobs. Oracle (no mirrored sort): ordered result is a permutation of the "
          "unordered one; adjacent rows are in order under the property's comparator (int64 / float64 numerically, anchors chronologically, else printed form; pairs with keys of "
@@ -172,7 +179,7 @@ PROPS["C14"] = dict(_QUERY_COMMON,
     rule="for a generated (data, SELECT without LIMIT / FILTER) the multiset of rows - the sequence when ORDER BY lists every output column - must be identical across: 4 re-executions under "
          "other tapes (driver completion order, emission order, pacing, chanSize, bulkSize, processor count, memoization, map iteration seed), a consistent renaming of all bindings, the "
          "data partitioned over 2 and 3 FROM graphs, two random permutations of the clauses (when none is OPTIONAL); and the result over a superset of the data contains the result "
-         "(no OPTIONAL / aggregate). 12% of the cases use a clause whose time bounds are bindings bound by an earlier clause (every row has its own window). evaluations = executed variants; non-trivial: non-empty base result; distinct = distinct (query, data)")
+         "(no OPTIONAL / aggregate). A quarter of the queries carry global BEFORE / AFTER / BETWEEN bounds; 12% of the cases use a clause whose time bounds are bindings bound by an earlier clause (every row has its own window) and 10% a clause all of whose bindings are bound by the other clause under a global bound. evaluations = executed variants; non-trivial: non-empty base result; distinct = distinct (query, data)")
 
 PROPS["C04"] = dict(_QUERY_COMMON,
     components_stub=["simulated storage driver, fault-free, around ONE real memory store shared by the statements of a case", "seeded scheduler in a synctest bubble (one bubble per statement)",
@@ -190,7 +197,7 @@ PROPS["C05"] = dict(
     level="exploration",
     instrument=ENGINE_FILES,
     budget=dict(quick=30, thorough=900),
-    rule="graphs of 0-13 triples over the documented domain (plain values in half of the cases; in the other half also its corners: ids with quotes, '@[', ']', backslashes, non-ASCII; "
+    rule="graphs of 0-13 triples (10%: 60-220; 6%: plus text literals padded so that the printed line is exactly 4095 ... 131072 bytes long, on and next to reader block sizes; 1%: plus 4095 ... 8193 small triples) over the documented domain (plain values in half of the cases; in the other half also its corners: ids with quotes, '@[', ']', backslashes, non-ASCII; "
          "anchors in several zones with nanoseconds; int64 extremes; -0, +-Inf, subnormal and huge floats; text containing the literal / predicate delimiters; empty blobs; predicate-valued "
          "objects) pushed through the pipeline graph -> io.WriteGraph (its producer goroutine scheduled by the seed) -> simulated writer -> disk image -> simulated reader (1..k bytes per call, "
          "(n>0,EOF), interspersed (0,nil) reads) -> io.ReadIntoGraph -> empty graph. Oracle: set equality by structural keys, both calls report the number of triples, re-export is byte "
@@ -205,15 +212,17 @@ PROPS["C15"] = dict(
     level="fault_enumeration",
     instrument=ENGINE_FILES,
     budget=dict(quick=30, thorough=900),
-    rule="a generated graph of 1-5 triples is exported to the simulated disk; then EVERY truncation point of the image (torn write; images up to 400 bytes, 120 sampled points beyond), 60 "
-         "sampled bit flips and every single-line duplication and drop are applied, one damaged image per execution. Each damaged image is read with io.ReadIntoGraph through the adversarial "
+    rule="a generated graph of 1-5 triples is exported to the simulated disk; then EVERY truncation point (torn write) and EVERY lost-head offset of the image (images up to 400 bytes, sampled beyond), every single-line duplication, drop and separator loss, 60 "
+         "sampled bit flips, 40 transposed and 25 zeroed extents, over-long runs (>= 64 KiB) without separator, 40 injected escape sequences, 25 reader failures at byte k and 80 sampled PAIRS of "
+         "damages are applied, one damaged image per execution. Each damaged image is read with io.ReadIntoGraph through the adversarial "
          "reader into an empty graph, and every line and every tab separated field of it is handed to triple.Parse, node.Parse, predicate.Parse, the literal builder and triple.ParseObject. "
          "Oracle: no panic; never (nil / empty value, nil error); an accepted value prints to text that is accepted again as an equal value; the reader loads exactly the triples of the lines "
          "before the first line the reference line recogniser (written from the docs) rejects and reports that count - a line the reference rejects but the implementation accepts is judged by "
-         "the print / re-parse rule instead. evaluations = damaged images; non-trivial: non-empty graph; distinct = distinct graphs",
-    exhaustive_note="exhaustive over the truncation points of each sampled image (<= 400 bytes) and over single-line duplications / drops; flips and images are sampled",
+         "the print / re-parse rule instead. When the reader fails at byte k: the call fails, the reported count is the number of lines loaded, those are exactly the first lines, and every well formed "
+         "line delivered completely before the failure is loaded (documented contract of ReadIntoGraph). evaluations = damaged images; non-trivial: non-empty graph; distinct = distinct graphs",
+    exhaustive_note="exhaustive over the truncation points and lost-head offsets of each sampled image (<= 400 bytes) and over single-line duplications / drops / separator losses; everything else is sampled",
     components_real=["io.ReadIntoGraph, triple.Parse, triple.ParseObject, node.Parse, predicate.Parse, literal builder Parse (real code)", "storage/memory (real code)"],
-    components_stub=["simulated disk image with torn / flipped / duplicated / dropped content, adversarial reader", "reference line recogniser (regular expressions + strconv/time, x/harness/serial.go)"],
+    components_stub=["simulated disk image with torn / head-less / flipped / zeroed / transposed / duplicated / dropped / merged content, adversarial and failing reader", "reference line recogniser (regular expressions + strconv/time, x/harness/serial.go)"],
     assumptions=["claimed for malformed text as produced by storage faults on valid exports (and for the reader clause); exhaustive enumeration of all short strings is input enumeration and not done",
                  "besides the fields of the damaged lines, their one- and two-character prefixes and their tails are tried (what a write torn inside a delimiter leaves), incl. the empty string"],
 )
@@ -258,13 +267,13 @@ MANIFEST_TEXT["C07"] = dict(
     note="trusted base: x/sim scheduler + testing/synctest quiescence, the go/ast instrumenter (its pass-through self-test runs the repository's own tests on the instrumented copy), porcupine v1.3.0, the set model; data races inside a single statement are not reachable",
     technique="deterministic simulation: seeded cooperative scheduler over real goroutines (synctest bubble), AST-inserted yield points and sim mutexes in a scratch copy, porcupine linearizability check, schedule+workload shrinking, replay from tape")
 MANIFEST_TEXT["C19"] = dict(
-    text="seeded exploration of read/write histories through one or several handles (lockstep comparison with the wrapped store) and of one-writer/one-or-two-reader interleavings at statement granularity inside the memoizer",
+    text="seeded exploration of read/write histories through one or several handles (lockstep comparison with the wrapped store), of one-writer/one-or-two-reader interleavings at statement granularity inside the memoizer, and of histories over a wrapped driver with transient failures (recovery: reads after a failed call must again equal the wrapped store)",
     note="trusted base: x/sim scheduler, instrumenter, the lookup reference definition; single writer only (as the property states)",
     technique="deterministic simulation: seeded scheduler over the instrumented memoization+memory copies, lockstep refinement against the wrapped store, real-time-bounded state matching, shrinking, replay from tape")
 MANIFEST_TEXT["C20"] = dict(
-    text="fault enumeration: for every statement of a seeded corpus, every driver call it makes (by position in the recorded call trace) is failed in every applicable mode under the same tape, and the statement must return an error in bounded steps leaving no goroutine",
+    text="fault enumeration: for every statement of a seeded corpus, every driver call it makes (by position in the recorded call trace) is failed in every applicable mode - and the caller's context cancelled at that position - under the same tape; the statement must return in bounded steps leaving no goroutine, with an error whenever a driver call returned one",
     note="trusted base: x/sim scheduler, simulated driver, instrumenter; corpus is sampled, (position x mode) is enumerated per statement",
-    technique="deterministic simulation with fault injection: seeded scheduler over the instrumented engine, simulated storage driver with a per-call fault plan, same-tape re-execution per fault position, bubble-end goroutine leak detection")
+    technique="deterministic simulation with fault injection: seeded scheduler over the instrumented engine, simulated storage driver (context-ignoring or context-aware) with a per-call fault plan incl. caller cancellation, same-tape re-execution per fault position, bubble-end goroutine leak detection")
 MANIFEST_TEXT["C08"] = dict(
     text="seeded exploration of statement texts (structured, grammar-derived, mutated, random) executed end to end inside the simulator, with termination, panic and goroutine-leak oracles on every goroutine the engine starts",
     note="trusted base: x/sim scheduler + synctest bubble accounting, instrumenter, simulated driver; inputs are sampled",
@@ -299,9 +308,9 @@ MANIFEST_TEXT["C05"] = dict(
     note="trusted base: structural key functions, simulated disk, x/sim for WriteGraph's goroutine; values are sampled",
     technique="deterministic simulation of the I/O pipeline: simulated disk (chunking, short reads, EOF shapes, failures at byte k), WriteGraph as a simulated client, round-trip oracle on structural keys")
 MANIFEST_TEXT["C15"] = dict(
-    text="fault enumeration on the simulated disk: every truncation point (and sampled flips, line duplications and drops) of each exported image is fed to the reader and the parsers",
+    text="fault enumeration on the simulated disk: every truncation point and lost-head offset, every line duplication / drop / separator loss (and sampled flips, zeroed / transposed extents, junk runs, escape injection, reader failures and pairs of damages) of each exported image is fed to the reader and the parsers",
     note="trusted base: the reference line recogniser written from the documentation, structural keys; images are sampled, truncation points enumerated",
-    technique="deterministic fault injection on a simulated disk image (torn write at every byte, bit flips, duplicated / lost lines) + reader / parser oracles (no panic, no nil-nil, re-parse, prefix-loaded)")
+    technique="deterministic fault injection on a simulated disk image (torn write and lost head at every byte, bit flips, zeroed / transposed extents, duplicated / lost / merged lines, failing reader, pairs of damages) + reader / parser oracles (no panic, no nil-nil, re-parse, prefix-loaded)")
 MANIFEST_TEXT["C18"] = dict(
     text="seeded exploration of statement histories with aborts at arbitrary tokens on one stateful parser / hook set, each outcome compared with a fresh parser",
     note="trusted base: the canonical statement rendering through semantic.Statement's exported accessors; only the history clause of C18 is claimed",
